@@ -329,6 +329,10 @@ def s1_fragmentation(src, nreq, ncuts, kinds_menu, with_waiter_events):
         if fault == "eof" and conn._reader is not None:
             reader.feed_eof()
         await vloop.settle(12)
+        if fault == "eof":
+            # transport loss: right away (not a request timeout later) the connection is closed and nobody waits
+            res["at_eof"] = dict(pending=[i for i, t in enumerate(tasks) if not t.done()], conn_open=conn._reader is not None,
+                                 closed=len(closed))
         # quiet period longer than the request timeout: every waiter must be resolved by now
         await asyncio.sleep(3.0)
         await vloop.settle(5)
@@ -378,6 +382,15 @@ def s1_fragmentation(src, nreq, ncuts, kinds_menu, with_waiter_events):
             src.check(isinstance(e, (Errors.KafkaConnectionError, Errors.CorrelationIdError, Errors.RequestTimedOutError,
                                      asyncio.TimeoutError)),
                       f"waiter {i} failed with {type(e).__name__}: not a connection/timeout error", fault=fault)
+    if fault == "eof" and "at_eof" in res:
+        ae = res["at_eof"]
+        src.check(not ae["pending"], f"waiters {ae['pending']} still pending right after the transport was lost (EOF)", kinds=kinds)
+        src.check(not ae["conn_open"], "connection not closed right after the transport was lost (EOF)", kinds=kinds)
+        for i, t in enumerate(tasks):
+            # (a stall longer than the request timeout, wevent 2, times every outstanding waiter out before the EOF)
+            if t.done() and not t.cancelled() and t.exception() is not None and wevent != 2:
+                src.check(isinstance(t.exception(), (Errors.KafkaConnectionError, Errors.CorrelationIdError)),
+                          f"waiter {i} outstanding at EOF failed with {type(t.exception()).__name__}, not a connection error", kinds=kinds)
     if fault == "none" and wevent == 0:
         for i, t in enumerate(tasks):
             src.check(t.done() and not t.cancelled() and t.exception() is None,
